@@ -43,7 +43,7 @@ func c18Run(e *Env, keepalive bool) {
 	t := e.Tape
 	tr := PickTransport(t)
 	period := []time.Duration{4 * time.Second, time.Second, 16 * time.Second}[t.Choose(3)]
-	maxRetries := uint32(1 + t.Choose(3))
+	maxRetries := []uint32{1, 2, 3, 0}[t.Choose(4)] // 0: given up at the first period without a message, no ping at all
 	closedBy := 0
 	// the application filters what it receives (WithRequestMonitor: rate limiting, access control): a message it drops
 	// has been received from the peer all the same
